@@ -358,6 +358,11 @@ class Calls(object):
             return SV(a.t.get(self.cx, a.e), a.t.inner)
         return a
 
+    def spec_none(self, ev, node, st):
+        """none('T'): the None of type Opt[T]"""
+        t = TOpt(self.fx.parse_type(node.args[0].value))
+        return SV(t.none(self.cx), t)
+
     def spec_opt(self, ev, node, st):
         """opt(x): x as a value of type Opt[T] (the wrapping the code translation applies when a T flows into an Opt[T] slot)"""
         (a,) = self._args(ev, node, st)
